@@ -106,13 +106,24 @@ def fit_case(draw):
     fixed = draw(st.lists(st.integers(0, nc - 1), min_size=nfix, max_size=nfix, unique=True))
     return dict(n=n, nc=nc, fn=fn, x=x, zeros=zeros, use_ia=use_ia, fixed=fixed, inputans=[2 * draw(uf) for _ in range(nc)],
                 truth=[2 * draw(uf) for _ in range(nc)], ykind=draw(st.sampled_from(['exact', 'noisy', 'noisy'])),
-                noise=[draw(uf) for _ in range(8)], inputfunc=draw(st.sampled_from([False, False, True])), wvary=draw(st.booleans()))
+                noise=[draw(uf) for _ in range(8)], inputfunc=draw(st.sampled_from([False, False, True])), wvary=draw(st.booleans()),
+                xform=draw(st.sampled_from(['f8', 'f8', 'f8', '>f8', 'f4', 'i8', 'f4-y-f4'])))
 
 
 def fit_body(case):
     from pydl.pydlutils.trace import func_fit
     n, nc, fn = case['n'], case['nc'], case['fn']
     x = np.array(case['x'], dtype='f8')
+    # the abscissae as the caller holds them (D46): byte-swapped, single precision next to double-precision values, whole numbers in an
+    # integer array; the reference works on the same numbers in float64
+    xform = case.get('xform', 'f8')
+    if xform == 'i8':
+        xarg = np.round(3 * x).astype('i8')
+    elif xform.startswith('f4'):
+        xarg = x.astype('f4')
+    else:
+        xarg = x.astype(xform)
+    x = xarg.astype('f8')
     w = (0.5 + 1.5 * np.abs(np.sin(np.arange(n) * 1.3))) if case['wvary'] else np.ones(n)
     w[case['zeros']] = 0.0
     B = ref_basis(fn.lstrip('f') if fn.startswith('f') and fn != 'fpoly' else ('poly' if fn == 'fpoly' else fn), x, nc).T   # (n, nc)
@@ -143,11 +154,25 @@ def fit_body(case):
         # (numerically) rank-deficient system: outside "all fitting problems with enough good points"; a LinAlgError is a legitimate answer
         note_label('ill-conditioned-skipped')
         try:
-            call(func_fit, x.copy(), y.copy(), nc, allowed=(np.linalg.LinAlgError,), **kw)
+            call(func_fit, xarg.copy(), y.copy(), nc, allowed=(np.linalg.LinAlgError,), **kw)
         except np.linalg.LinAlgError:
             pass
         return
-    res, yfit = call(func_fit, x.copy(), y.copy(), nc, **kw)
+    if xform.startswith('f4'):
+        # single-precision abscissae (the bases are evaluated in the precision of x), with double- or single-precision values: the call
+        # must work (D46: a leftover dtype assertion) and only the accuracy single precision allows is asked for
+        res, yfit = call(func_fit, xarg.copy(), y.astype('f4') if xform == 'f4-y-f4' else y.copy(), nc, **kw)
+        with judge('func_fit-f4'):
+            ref = np.zeros(nc)
+            if free.any():
+                ref[free] = np.linalg.lstsq(Aw, ysub * sw, rcond=None)[0]
+            ref[~free] = ans[~free]
+            check(np.shape(res) == (nc,) and bool(np.all(np.abs(np.asarray(res, dtype='f8') - ref) <= 1e-5 * cond ** 2 * max(1.0, np.abs(ref).max()) + 1e-3)),
+                  'func_fit:single-precision-fit-far-off', lambda: dict(got=np.asarray(res).tolist(), want=ref.tolist(), cond=float(cond)))
+        note_label('xform:' + xform)
+        return
+    note_label('xform:' + xform)
+    res, yfit = call(func_fit, xarg.copy(), y.copy(), nc, **kw)
     with judge('func_fit'):
         res = np.asarray(res, dtype='f8')
         yfit = np.asarray(yfit, dtype='f8')
@@ -172,7 +197,7 @@ def fit_body(case):
     if case['zeros'] and cond < 1e6:
         y2 = y.copy()
         y2[case['zeros']] += 13.0
-        res2, _ = call(func_fit, x.copy(), y2, nc, **{k: (v.copy() if hasattr(v, 'copy') else v) for k, v in kw.items()})
+        res2, _ = call(func_fit, xarg.copy(), y2, nc, **{k: (v.copy() if hasattr(v, 'copy') else v) for k, v in kw.items()})
         with judge('zero-weight'):
             check(bool(np.all(np.abs(np.asarray(res2) - res) <= 1e-9 * max(1.0, np.abs(res).max()))), 'func_fit:zero-weight-point-has-influence')
 
@@ -222,7 +247,7 @@ def tset_case(draw):
         jp = dict(xjumplo=lo, xjumphi=hi, xjumpval=draw(st.sampled_from([0.5, -1.25, 3.0, 0.0])))
     return dict(ntr=ntr, nx=nx, nc=nc, func=func, xkind=xkind, rows=rows, coeff=coeff, jump=jp, ykind=draw(st.sampled_from(['exact', 'noisy'])),
                 xminmax=draw(st.sampled_from([None, None, 'wider', 'xmin-only', 'xmax-only'])), rerange=draw(st.sampled_from([None, None, [2.0, 3.0], [0.0, 10.0]])), zeros=draw(st.lists(st.integers(0, ntr * nx - 1), max_size=5, unique=True)),
-                noise=[draw(uf) for _ in range(8)])
+                noise=[draw(uf) for _ in range(8)], xdtype=draw(st.sampled_from(['f8', 'f8', 'i8', 'i4'])) if xkind == 'grid' else 'f8')
 
 
 def tset_body(case):
@@ -256,14 +281,18 @@ def tset_body(case):
         Y = Y + 0.2 * np.array([[case['noise'][(i + 3 * t) % 8] * math.sin(i + t) for i in range(nx)] for t in range(ntr)])
     iv = np.ones_like(X)
     iv.ravel()[case['zeros']] = 0.0
-    tset = call(xy2traceset, X.copy(), Y.copy(), invvar=iv.copy(), **kw)
+    # whole-number positions as the caller may hold them: pixel indices in an integer array (D47), single precision
+    xdt = case.get('xdtype', 'f8')
+    Xarg = X.astype(xdt)
+    note_label('xdtype:' + xdt)
+    tset = call(xy2traceset, Xarg.copy(), Y.copy(), invvar=iv.copy(), **kw)
     with judge('traceset'):
         check(isinstance(tset, TraceSet), 'tset:type')
         coeff = np.asarray(tset.coeff, dtype='f8')
         check(coeff.shape == (ntr, nc), 'tset:coeff-shape', lambda: dict(got=coeff.shape))
         yfit = np.asarray(tset.yfit, dtype='f8')
         check(yfit.shape == X.shape, 'tset:yfit-shape')
-    xo, yo = call(traceset2xy, tset, X.copy())
+    xo, yo = call(traceset2xy, tset, Xarg.copy())
     scale = max(1.0, np.abs(Y).max())
     with judge('roundtrip'):
         yo = np.asarray(yo, dtype='f8')
